@@ -14,6 +14,7 @@ import (
 	"github.com/c2FmZQ/ech"
 
 	"verif/harness/internal/echgen"
+	"verif/harness/internal/echrun"
 	"verif/harness/internal/hellogen"
 	"verif/harness/internal/hpkex"
 	"verif/harness/internal/mon"
@@ -74,7 +75,9 @@ func (f *flow) expectedUp(cut int) (lo, hi []byte) {
 func image(msg []byte) []byte { return tlswire.Record(22, 0x0303, msg) }
 
 // stream draws records whose lengths come from lens (cycled) with the given content types.
-func stream(rng *mrand.Rand, lens []int, protectedOnly bool) []byte {
+// opaque: the direction is not inspected at all (no ECH was accepted), so handshake records
+// may begin with any message type, including bytes that look like a ClientHello or ServerHello.
+func stream(rng *mrand.Rand, lens []int, protectedOnly, opaque bool) []byte {
 	var out []byte
 	for _, l := range lens {
 		typ := byte(23)
@@ -84,6 +87,9 @@ func stream(rng *mrand.Rand, lens []int, protectedOnly bool) []byte {
 		p := hellogen.Bytes(rng, l)
 		if typ == 22 && l > 0 {
 			p[0] = 11 // a handshake message that is neither ClientHello nor ServerHello
+			if opaque {
+				p[0] = []byte{1, 2, 2, 11, 0xff, p[0]}[rng.IntN(6)]
+			}
 		}
 		out = append(out, tlswire.Record(typ, 0x0303, p)...)
 	}
@@ -124,8 +130,17 @@ func genFlow(rng *mrand.Rand, kind string, keys []echgen.KeyPair, upLens, downLe
 		}
 	}
 	// while the Conn still inspects a direction, the records are the handshake's own: keep the first ones protected or small
-	f.up = stream(rng, upLens, false)
-	f.down = stream(rng, downLens, false)
+	f.up = stream(rng, upLens, false, kind == "plain")
+	f.down = stream(rng, downLens, false, kind == "plain")
+	if kind == "plain" && rng.IntN(3) == 0 {
+		// a TLS 1.2 style ServerHello without an extensions block, as an older backend sends it
+		body := append([]byte{0x03, 0x03}, hellogen.Bytes(rng, 32)...)
+		sid := hellogen.Bytes(rng, []int{0, 32}[rng.IntN(2)])
+		body = append(append(body, byte(len(sid))), sid...)
+		body = append(body, 0xc0, 0x2f, 0x00)
+		msg := append([]byte{2, 0, 0, byte(len(body))}, body...)
+		f.down = append(tlswire.Record(22, 0x0303, msg), f.down...)
+	}
 	return f
 }
 
@@ -502,7 +517,158 @@ func TestCheck(t *testing.T) {
 	// -- real crypto/tls flights (accepted ECH, with and without HelloRetryRequest) under fragmentation and cuts --
 	capturedWorkload(r, ca)
 
+	// -- ClientHellos that arrive as several handshake records: every split position --
+	helloFragments(r, keys)
+
 	r.Floor("replays_ok", int64(n/2))
 	r.Floor("cuts_ok", int64(len(jobs)/3))
 	r.Floor("record_lengths_covered", int64(len(lens)))
+}
+
+// deframeHello strips the record framing of the first handshake message in got.
+func deframeHello(got []byte) (msg, rest []byte, problem string) {
+	off := 0
+	for {
+		if off+5 > len(got) {
+			return msg, nil, "stream ends inside the hello"
+		}
+		l := int(got[off+3])<<8 | int(got[off+4])
+		if got[off] != 22 {
+			return msg, got[off:], fmt.Sprintf("record of type %d inside the hello", got[off])
+		}
+		if l == 0 || l > 16384 {
+			return msg, got[off:], fmt.Sprintf("handshake fragment of %d bytes", l)
+		}
+		if off+5+l > len(got) {
+			return msg, nil, "stream ends inside the hello"
+		}
+		msg = append(msg, got[off+5:off+5+l]...)
+		off += 5 + l
+		if len(msg) >= 4 {
+			total := 4 + (int(msg[1])<<16 | int(msg[2])<<8 | int(msg[3]))
+			if len(msg) > total {
+				return msg, got[off:], "a record continues beyond the end of the hello"
+			}
+			if len(msg) == total {
+				return msg, got[off:], ""
+			}
+		}
+	}
+}
+
+// helloFragments sends hellos cut into 2 and 3 handshake records at every position (TLS
+// allows a handshake message to be fragmented anywhere) followed by further client records.
+// The backend must read the (rewritten) hello - whatever its framing - and then exactly the rest.
+func helloFragments(r *mon.Run, keys []echgen.KeyPair) {
+	type job struct {
+		kind       string
+		msg        []byte // hello message as the client sends it
+		want       []byte // hello message the backend must read
+		prefix     []byte // records before it (retry: none; they are fed separately)
+		first, hrr []byte // retry: accepted first hello and the HelloRetryRequest
+		ks         []ech.Key
+		cuts       []int
+	}
+	var jobs []job
+	grng := r.Rand("hellofrag-gen", 0)
+	nh := r.N(2, 12)
+	for h := 0; h < nh; h++ {
+		for _, kind := range []string{"plain", "plain-keys", "ech", "ech-retry"} {
+			k := keys[grng.IntN(len(keys))]
+			j := job{kind: kind}
+			switch kind {
+			case "plain", "plain-keys":
+				o := hellogen.RandomOpts(grng)
+				o.ECH = hellogen.ECHNone
+				o.TargetSize = 0
+				j.msg = hellogen.Plain(grng, o).Message()
+				j.want = j.msg
+				if kind == "plain-keys" {
+					j.ks = []ech.Key{k.TLSKey()}
+				}
+			default:
+				o := echgen.DefaultOpts()
+				o.MaxExtra = 2
+				o.Compress = grng.IntN(2) == 0
+				of := echgen.Gen(grng, k, []uint16{hpkex.AES128GCM, hpkex.AES256GCM, hpkex.ChaCha20}[grng.IntN(3)], o)
+				j.ks = []ech.Key{k.TLSKey()}
+				j.msg, j.want = of.Outer.Message(), of.Inner.Message()
+				if kind == "ech-retry" {
+					re := of.Retry(grng, echgen.DefaultOpts())
+					j.first, j.hrr = of.Record(), tlswire.HRRRecord(of.Outer.SessionID, 0x0017)
+					j.msg, j.want = re.Outer.Message(), re.Inner.Message()
+				}
+			}
+			// two records: every position; three records: a last fragment of 1..8 bytes after a PRNG-chosen first cut
+			for c := 1; c < len(j.msg); c++ {
+				jj := j
+				jj.cuts = []int{c}
+				jobs = append(jobs, jj)
+			}
+			for last := 1; last <= 8 && last+2 < len(j.msg); last++ {
+				jj := j
+				jj.cuts = []int{1 + grng.IntN(len(j.msg)-last-1), len(j.msg) - last}
+				jobs = append(jobs, jj)
+			}
+		}
+	}
+	r.Parallel("hellofrag", len(jobs), func(i int, rng *mrand.Rand) {
+		j := jobs[i]
+		var wire []byte
+		prev := 0
+		for _, c := range append(append([]int{}, j.cuts...), len(j.msg)) {
+			wire = append(wire, tlswire.Record(22, 0x0301, j.msg[prev:c])...)
+			prev = c
+		}
+		tail := append(tlswire.Record(20, 0x0303, []byte{1}), tlswire.Record(23, 0x0303, hellogen.Bytes(rng, 1+rng.IntN(60)))...)
+		c := map[string]any{"kind": j.kind, "cuts": j.cuts, "hello_len": len(j.msg), "client_bytes": mon.Hex(append(append([]byte{}, wire...), tail...))}
+		r.Guard("hellofrag", i, "hello-fragments", c, func() {
+			var conn *ech.Conn
+			if j.first != nil {
+				flow, out := echrun.StartFlow(j.first, j.ks)
+				if out.Err != nil || !out.Accepted {
+					r.Inconclusive("first hello of a fragmented-retry case not accepted: %v", out.Err)
+					return
+				}
+				if _, _, err := flow.Backend(j.hrr); err != nil {
+					r.Inconclusive("HRR write failed: %v", err)
+					return
+				}
+				flow.Tap.Feed(append(append([]byte{}, wire...), tail...))
+				flow.Tap.CloseInput(io.EOF)
+				conn = flow.Conn
+			} else {
+				tc := tap.FromBytes(append(append([]byte{}, wire...), tail...))
+				var opts []ech.Option
+				if j.ks != nil {
+					opts = append(opts, ech.WithKeys(j.ks))
+				}
+				var err error
+				conn, err = ech.NewConn(context.Background(), tc, opts...)
+				if err != nil {
+					r.Violate("hellofrag", i, "hello-fragments:newconn-error:"+j.kind, fmt.Sprintf("hello sent as %d handshake records (cuts %v of %d bytes) refused: %v", len(j.cuts)+1, j.cuts, len(j.msg), err), c)
+					return
+				}
+			}
+			got, err := io.ReadAll(conn)
+			if err != nil {
+				r.Violate("hellofrag", i, "hello-fragments:read-error:"+j.kind, fmt.Sprintf("reading the stream of a hello sent as %d handshake records (cuts %v of %d bytes): %v", len(j.cuts)+1, j.cuts, len(j.msg), err), c)
+				return
+			}
+			msg, rest, problem := deframeHello(got)
+			c["got"] = mon.Hex(got)
+			switch {
+			case problem != "":
+				r.Violate("hellofrag", i, "hello-fragments:bad-framing:"+j.kind, problem, c)
+			case !bytes.Equal(msg, j.want):
+				r.Violate("hellofrag", i, "hello-fragments:hello-differs:"+j.kind, fmt.Sprintf("backend read a %d-byte hello, want %d bytes (first difference at %d)", len(msg), len(j.want), firstDiff(msg, j.want)), c)
+			case !bytes.Equal(rest, tail):
+				r.Violate("hellofrag", i, "hello-fragments:rest-differs:"+j.kind, fmt.Sprintf("after the hello the backend read %d bytes, the client sent %d (first difference at %d)", len(rest), len(tail), firstDiff(rest, tail)), c)
+			default:
+				r.Count("fragmented_hellos_ok", 1)
+			}
+			r.Eval(fmt.Sprintf("hellofrag|%s|%d|%v", j.kind, len(j.msg), j.cuts))
+		})
+	})
+	r.Floor("fragmented_hellos_ok", int64(len(jobs)/2))
 }
